@@ -141,13 +141,13 @@ def dump (s : State) : String :=
 def showPath (p : List Nat) : String := if p.isEmpty then "-" else ",".intercalate (p.map toString)
 def showNats (l : List Nat) : String := if l.isEmpty then "-" else ",".intercalate (l.map toString)
 
-/-- canonical invocation trees (sets sorted, the parked list in list order), worker and task extras.
+/-- canonical invocation trees (sets sorted, also the parked list: see `SchedTree.descendAny`), worker and task extras.
 `firstQueuedOperationPriority` is shown for queued invocations only: the value left behind in an
 invocation that is no longer queued depends on the order of `range t.operations` and is never read. -/
 def treedump (ts : TState) : String :=
   let ns := ts.nodes.map (fun n =>
     let sum := n.exec.foldl (fun a e => a + e.2) 0
-    let parked := if n.parked.isEmpty then "-" else ",".intercalate (n.parked.map (fun w => s!"{w.host}.{w.thread}"))
+    let parked := if n.parked.isEmpty then "-" else ",".intercalate (sortStrings (n.parked.map (fun w => s!"{w.host}.{w.thread}")))
     s!"n {n.scq.pq}/{n.scq.sc} p={showPath n.path} ops={showNats (sortNats n.qops)} qk={showNats (sortNats n.qkids)} ik={showNats (sortNats n.ikids)} prio={if n.isQueued then toString n.prio else "-"} ex={n.exec.length}/{sum} st={n.started} co={n.completed} idle={n.idle} parked={parked}")
   let xs := ts.wx.map (fun y =>
     let last := match y.last with | some p => showPath p | none => "nil"
